@@ -206,7 +206,7 @@ class Recorder:
     def trusted(self):
         """disks whose recorded inode numbers the next scan trusts: the UUID recorded for the disk is the one it reports now
         (--test-fake-uuid: 'fake-uuid-2' for the first data disk of the configuration, 'fake-uuid-1' for the second)"""
-        if not self.inomode:
+        if not self.inomode or getattr(self.a, "nouuid", False):
             return []
         res = []
         c = next((x for x in (self.last or {}).get("cont", []) if isinstance(x, dict)), None)
@@ -414,7 +414,9 @@ class Recorder:
         unr = sorted((str(self.a.conf.disk_names.index(t[2])), t[3]) for t in r.tag("status")
                      if t[1] == "unrecoverable" and t[3] in pre.get(str(self.a.conf.disk_names.index(t[2])), {}))
         out = {"exit": self._exit(r), "rc": r.rc, "recovered": [list(x) for x in rec], "unrec": [list(x) for x in unr],
-               "disappeared": "disappeared" in r.err}
+               # observation O1: fix stops (failing status, nothing reported) when a file that is a candidate of its search by size
+               # and time stamp was renamed, removed or cut by fix itself ("file ... disappeared" / "Error reading file": search.c)
+               "disappeared": ("disappeared" in r.err) or ("Error reading file" in r.err and self._exit(r) == "none")}
         if sel is None:
             sel = {d: sorted(self.lines[-1]["state"]["cf"][d].keys()) for d in self.D}
         args = {"present": present, "sel": sel, "flags": list(flags), "range": _range(flags), "ext": ext}
